@@ -17,7 +17,7 @@ var ErrInvalidRegex = errors.New("invalid regex")
 func StartsWith(ctx *expr.Context, input system.Collection, args ...expr.Expression) (system.Collection, error) {
 	// Validate single string input
 	if length := len(input); length > 1 {
-		return nil, fmt.Errorf("%w: input has length %v, expected 1", ErrWrongArity, length)
+		return nil, fmt.Errorf("%w: input has length %v, expected 1", expr.ErrNotSingleton, length)
 	} else if length == 0 {
 		return system.Collection{}, nil
 	}
@@ -33,8 +33,10 @@ func StartsWith(ctx *expr.Context, input system.Collection, args ...expr.Express
 	output, err := args[0].Evaluate(ctx, input)
 	if err != nil {
 		return nil, err
+	} else if len(output) == 0 {
+		return system.Collection{}, nil // an empty argument gives an empty result
 	} else if length := len(output); length != 1 {
-		return nil, fmt.Errorf("%w: received %v arguments, expected 1", ErrWrongArity, length)
+		return nil, fmt.Errorf("%w: argument has %v items, expected 1", expr.ErrNotSingleton, length)
 	}
 	prefix, err := output.ToString()
 	if err != nil {
@@ -49,7 +51,7 @@ func StartsWith(ctx *expr.Context, input system.Collection, args ...expr.Express
 func EndsWith(ctx *expr.Context, input system.Collection, args ...expr.Expression) (system.Collection, error) {
 	// Validate single string input
 	if length := len(input); length > 1 {
-		return nil, fmt.Errorf("%w: input has length %v, expected 1", ErrWrongArity, length)
+		return nil, fmt.Errorf("%w: input has length %v, expected 1", expr.ErrNotSingleton, length)
 	} else if length == 0 {
 		return system.Collection{}, nil
 	}
@@ -65,8 +67,10 @@ func EndsWith(ctx *expr.Context, input system.Collection, args ...expr.Expressio
 	output, err := args[0].Evaluate(ctx, input)
 	if err != nil {
 		return nil, err
+	} else if len(output) == 0 {
+		return system.Collection{}, nil // an empty argument gives an empty result
 	} else if length := len(output); length != 1 {
-		return nil, fmt.Errorf("%w: received %v arguments, expected 1", ErrWrongArity, length)
+		return nil, fmt.Errorf("%w: argument has %v items, expected 1", expr.ErrNotSingleton, length)
 	}
 	suffix, err := output.ToString()
 	if err != nil {
@@ -81,7 +85,7 @@ func EndsWith(ctx *expr.Context, input system.Collection, args ...expr.Expressio
 func Length(ctx *expr.Context, input system.Collection, args ...expr.Expression) (system.Collection, error) {
 	// Validate single string input
 	if length := len(input); length > 1 {
-		return nil, fmt.Errorf("%w: input has length %v, expected 1", ErrWrongArity, length)
+		return nil, fmt.Errorf("%w: input has length %v, expected 1", expr.ErrNotSingleton, length)
 	} else if length == 0 {
 		return system.Collection{}, nil
 	}
@@ -102,7 +106,7 @@ func Length(ctx *expr.Context, input system.Collection, args ...expr.Expression)
 func Upper(ctx *expr.Context, input system.Collection, args ...expr.Expression) (system.Collection, error) {
 	// Validate single string input
 	if length := len(input); length > 1 {
-		return nil, fmt.Errorf("%w: input has length %v, expected 1", ErrWrongArity, length)
+		return nil, fmt.Errorf("%w: input has length %v, expected 1", expr.ErrNotSingleton, length)
 	} else if length == 0 {
 		return system.Collection{}, nil
 	}
@@ -123,7 +127,7 @@ func Upper(ctx *expr.Context, input system.Collection, args ...expr.Expression) 
 func Lower(ctx *expr.Context, input system.Collection, args ...expr.Expression) (system.Collection, error) {
 	// Validate single string input
 	if length := len(input); length > 1 {
-		return nil, fmt.Errorf("%w: input has length %v, expected 1", ErrWrongArity, length)
+		return nil, fmt.Errorf("%w: input has length %v, expected 1", expr.ErrNotSingleton, length)
 	} else if length == 0 {
 		return system.Collection{}, nil
 	}
@@ -144,7 +148,7 @@ func Lower(ctx *expr.Context, input system.Collection, args ...expr.Expression) 
 func Contains(ctx *expr.Context, input system.Collection, args ...expr.Expression) (system.Collection, error) {
 	// Validate single string input
 	if length := len(input); length > 1 {
-		return nil, fmt.Errorf("%w: input has length %v, expected 1", ErrWrongArity, length)
+		return nil, fmt.Errorf("%w: input has length %v, expected 1", expr.ErrNotSingleton, length)
 	} else if length == 0 {
 		return system.Collection{}, nil
 	}
@@ -160,8 +164,10 @@ func Contains(ctx *expr.Context, input system.Collection, args ...expr.Expressio
 	output, err := args[0].Evaluate(ctx, input)
 	if err != nil {
 		return nil, err
+	} else if len(output) == 0 {
+		return system.Collection{}, nil // an empty argument gives an empty result
 	} else if length := len(output); length != 1 {
-		return nil, fmt.Errorf("%w: received %v arguments, expected 1", ErrWrongArity, length)
+		return nil, fmt.Errorf("%w: argument has %v items, expected 1", expr.ErrNotSingleton, length)
 	}
 	substring, err := output.ToString()
 	if err != nil {
@@ -176,7 +182,7 @@ func Contains(ctx *expr.Context, input system.Collection, args ...expr.Expressio
 func ToChars(ctx *expr.Context, input system.Collection, args ...expr.Expression) (system.Collection, error) {
 	// Validate single string input
 	if length := len(input); length > 1 {
-		return nil, fmt.Errorf("%w: input has length %v, expected 1", ErrWrongArity, length)
+		return nil, fmt.Errorf("%w: input has length %v, expected 1", expr.ErrNotSingleton, length)
 	} else if length == 0 {
 		return system.Collection{}, nil
 	}
@@ -201,7 +207,7 @@ func ToChars(ctx *expr.Context, input system.Collection, args ...expr.Expression
 func Substring(ctx *expr.Context, input system.Collection, args ...expr.Expression) (system.Collection, error) {
 	// Validate single string input
 	if length := len(input); length > 1 {
-		return nil, fmt.Errorf("%w: input has length %v, expected 1", ErrWrongArity, length)
+		return nil, fmt.Errorf("%w: input has length %v, expected 1", expr.ErrNotSingleton, length)
 	} else if length == 0 {
 		return system.Collection{}, nil
 	}
@@ -219,8 +225,10 @@ func Substring(ctx *expr.Context, input system.Collection, args ...expr.Expressi
 	startOutput, err := args[0].Evaluate(ctx, input)
 	if err != nil {
 		return nil, err
+	} else if len(startOutput) == 0 {
+		return system.Collection{}, nil // an empty argument gives an empty result
 	} else if length := len(startOutput); length != 1 {
-		return nil, fmt.Errorf("%w: received %v arguments, expected 1", ErrWrongArity, length)
+		return nil, fmt.Errorf("%w: argument has %v items, expected 1", expr.ErrNotSingleton, length)
 	}
 	start, err := startOutput.ToInt32()
 	if err != nil {
@@ -238,8 +246,10 @@ func Substring(ctx *expr.Context, input system.Collection, args ...expr.Expressi
 		lengthOutput, err := args[1].Evaluate(ctx, input)
 		if err != nil {
 			return nil, err
+		} else if len(lengthOutput) == 0 {
+			return system.Collection{}, nil // an empty argument gives an empty result
 		} else if length := len(lengthOutput); length != 1 {
-			return nil, fmt.Errorf("%w: received %v arguments, expected 1", ErrWrongArity, length)
+			return nil, fmt.Errorf("%w: argument has %v items, expected 1", expr.ErrNotSingleton, length)
 		}
 		substringLength, err = lengthOutput.ToInt32()
 		if err != nil {
@@ -262,7 +272,7 @@ func Substring(ctx *expr.Context, input system.Collection, args ...expr.Expressi
 func IndexOf(ctx *expr.Context, input system.Collection, args ...expr.Expression) (system.Collection, error) {
 	// Validate single string input
 	if length := len(input); length > 1 {
-		return nil, fmt.Errorf("%w: input has length %v, expected 1", ErrWrongArity, length)
+		return nil, fmt.Errorf("%w: input has length %v, expected 1", expr.ErrNotSingleton, length)
 	} else if length == 0 {
 		return system.Collection{}, nil
 	}
@@ -282,7 +292,7 @@ func IndexOf(ctx *expr.Context, input system.Collection, args ...expr.Expression
 		// Return empty for empty argument
 		return system.Collection{}, nil
 	} else if length > 1 {
-		return nil, fmt.Errorf("%w: received %v arguments, expected 1", ErrWrongArity, length)
+		return nil, fmt.Errorf("%w: argument has %v items, expected 1", expr.ErrNotSingleton, length)
 	}
 	substring, err := output.ToString()
 	if err != nil {
@@ -301,7 +311,7 @@ func IndexOf(ctx *expr.Context, input system.Collection, args ...expr.Expression
 func Matches(ctx *expr.Context, input system.Collection, args ...expr.Expression) (system.Collection, error) {
 	// Validate single string input
 	if length := len(input); length > 1 {
-		return nil, fmt.Errorf("%w: input has length %v, expected 1", ErrWrongArity, length)
+		return nil, fmt.Errorf("%w: input has length %v, expected 1", expr.ErrNotSingleton, length)
 	} else if length == 0 {
 		return system.Collection{}, nil
 	}
@@ -320,7 +330,7 @@ func Matches(ctx *expr.Context, input system.Collection, args ...expr.Expression
 	} else if length := len(output); length == 0 {
 		return system.Collection{}, nil
 	} else if length != 1 {
-		return nil, fmt.Errorf("%w: received %v arguments, expected 1", ErrWrongArity, length)
+		return nil, fmt.Errorf("%w: argument has %v items, expected 1", expr.ErrNotSingleton, length)
 	}
 	regexString, err := output.ToString()
 	if err != nil {
@@ -339,7 +349,7 @@ func Matches(ctx *expr.Context, input system.Collection, args ...expr.Expression
 func Replace(ctx *expr.Context, input system.Collection, args ...expr.Expression) (system.Collection, error) {
 	// Validate single string input
 	if length := len(input); length > 1 {
-		return nil, fmt.Errorf("%w: input has length %v, expected 1", ErrWrongArity, length)
+		return nil, fmt.Errorf("%w: input has length %v, expected 1", expr.ErrNotSingleton, length)
 	} else if length == 0 {
 		return system.Collection{}, nil
 	}
@@ -360,7 +370,7 @@ func Replace(ctx *expr.Context, input system.Collection, args ...expr.Expression
 		// Empty arg
 		return system.Collection{}, nil
 	} else if length > 1 {
-		return nil, fmt.Errorf("%w: received %v arguments, expected 1", ErrWrongArity, length)
+		return nil, fmt.Errorf("%w: argument has %v items, expected 1", expr.ErrNotSingleton, length)
 	}
 	pattern, err := patternOutput.ToString()
 	if err != nil {
@@ -375,7 +385,7 @@ func Replace(ctx *expr.Context, input system.Collection, args ...expr.Expression
 		// Empty arg
 		return system.Collection{}, nil
 	} else if length > 1 {
-		return nil, fmt.Errorf("%w: received %v arguments, expected 1", ErrWrongArity, length)
+		return nil, fmt.Errorf("%w: argument has %v items, expected 1", expr.ErrNotSingleton, length)
 	}
 	substitution, err := subOutput.ToString()
 	if err != nil {
@@ -392,7 +402,7 @@ func Replace(ctx *expr.Context, input system.Collection, args ...expr.Expression
 func ReplaceMatches(ctx *expr.Context, input system.Collection, args ...expr.Expression) (system.Collection, error) {
 	// Validate single string input
 	if length := len(input); length > 1 {
-		return nil, fmt.Errorf("%w: input has length %v, expected 1", ErrWrongArity, length)
+		return nil, fmt.Errorf("%w: input has length %v, expected 1", expr.ErrNotSingleton, length)
 	} else if length == 0 {
 		return system.Collection{}, nil
 	}
@@ -412,7 +422,7 @@ func ReplaceMatches(ctx *expr.Context, input system.Collection, args ...expr.Exp
 	} else if length := len(regexOutput); length == 0 {
 		return system.Collection{}, nil
 	} else if length > 1 {
-		return nil, fmt.Errorf("%w: received %v arguments, expected 1", ErrWrongArity, length)
+		return nil, fmt.Errorf("%w: argument has %v items, expected 1", expr.ErrNotSingleton, length)
 	}
 	regexString, err := regexOutput.ToString()
 	if err != nil {
@@ -430,7 +440,7 @@ func ReplaceMatches(ctx *expr.Context, input system.Collection, args ...expr.Exp
 	} else if length := len(subOutput); length == 0 {
 		return system.Collection{}, nil
 	} else if length > 1 {
-		return nil, fmt.Errorf("%w: received %v arguments, expected 1", ErrWrongArity, length)
+		return nil, fmt.Errorf("%w: argument has %v items, expected 1", expr.ErrNotSingleton, length)
 	}
 	substitution, err := subOutput.ToString()
 	if err != nil {
